@@ -12,3 +12,5 @@ pub(crate) mod ref_table;
 mod tail;
 pub(crate) mod ref_lex;
 mod head;
+pub(crate) mod guard;
+mod step;
